@@ -365,6 +365,7 @@ func propC17(w *World, r *Report) {
 	RunBounds(w, r, "bounds", br, methods)
 	ef := &errflow{w: w, r: r}
 	ef.computeIOErr()
+	r.Conds["readbytes-nil-on-error"] = condNilOnError(w, "(*parser.Parser).ReadBytes")
 	ef.RunErrDrop(methods)
 	RunShortRead(w, r, w.LibFuncs())
 	r.Floor("shortread", 1)
